@@ -23,7 +23,10 @@ use artifact_content::get_artifact_path_and_content;
 use common_lang_types::{ArtifactPathAndContent, CurrentWorkingDirectory};
 use graphql_network_protocol::GraphQLAndJavascriptProfile;
 use intern::string_key::Intern;
-use isograph_compiler::{CompilerState, batch_compile::compile, update_sources, watch::has_config_changes};
+use isograph_compiler::{
+    CompilerState, batch_compile::compile, update_sources,
+    watch::{SourceFileEvent, has_config_changes},
+};
 use isograph_config::{CompilerConfig, create_config};
 use notify::{
     Event, EventKind,
@@ -70,6 +73,9 @@ pub struct Step {
     pub ops: Vec<Op>,
     #[serde(default)]
     pub gc: bool,
+    /// the watch loop is busy: the batch of this step is handled after the next step's edits
+    #[serde(default)]
+    pub defer: bool,
 }
 
 #[derive(Deserialize, Clone, serde::Serialize, Debug)]
@@ -365,6 +371,19 @@ impl Tree {
     /// (None = op not applicable in the current tree, nothing was done).
     fn apply(&mut self, op: &Op) -> Option<Vec<DebouncedEvent>> {
         let mut evs = vec![];
+        // Inside the artifact directory only plain writes of stray files are made (to check
+        // that they are not read as sources); anything else there is "something else editing
+        // the artifact directory", which the property does not cover.
+        let touched: Vec<&String> = match op {
+            Op::Write { .. } => vec![],
+            Op::AtomicReplace { path, .. } | Op::RemoveFile { path } | Op::RemoveDir { path }
+            | Op::ReplaceFileByDir { path, .. } | Op::ReplaceDirByFile { path, .. }
+            | Op::Recreate { path, .. } | Op::Touch { path } | Op::Chmod { path } | Op::Mkdir { path } => vec![path],
+            Op::Rename { from, to } => vec![from, to],
+        };
+        if touched.iter().any(|p| self.abs(p).starts_with(&self.artifact_dir)) {
+            return None;
+        }
         match op {
             Op::Mkdir { path } => {
                 let p = self.abs(path);
@@ -654,6 +673,7 @@ struct RunStats {
     recompiles_ok: u64,
     recompiles_err: u64,
     gc_runs: u64,
+    deferred_batches: u64,
     fresh: BTreeMap<String, u64>,
     outcome_changes: u64,
     comparisons: u64,
@@ -740,6 +760,7 @@ impl Runner {
 
         let mut cached_dir: Option<BTreeMap<String, Vec<u8>>> = None;
         let mut strays_at_snapshot = 0u64;
+        let mut pending: Vec<Vec<SourceFileEvent>> = vec![];
         for (si, step) in case.steps.iter().enumerate() {
             stats.steps_run += 1;
             // 1. the edits of this debounce window
@@ -771,7 +792,22 @@ impl Runner {
                 Ok(c) => c,
             };
             let mut recompiled = false;
-            if let Some(changes) = changes {
+            if changes.is_none() {
+                stats.batches_without_relevant_events += 1;
+            }
+            let mut to_process: Vec<Vec<SourceFileEvent>> = std::mem::take(&mut pending);
+            if let Some(c) = changes {
+                to_process.push(c);
+            }
+            if step.defer && si + 1 < case.steps.len() {
+                // The loop is still busy with an earlier compile: this batch (already
+                // categorised against the tree as it is now) is only handled after the edits
+                // of the next step have been made. No comparison at this point.
+                stats.deferred_batches += 1;
+                pending = to_process;
+                continue;
+            }
+            for changes in to_process {
                 stats.batches_with_relevant_events += 1;
                 if has_config_changes(&changes) {
                     return Err("script touched the config file (not generated)".into());
@@ -902,8 +938,6 @@ impl Runner {
                         }));
                     }
                 }
-            } else {
-                stats.batches_without_relevant_events += 1;
             }
 
             // 4. the oracle: a fresh state on the same tree
@@ -1077,6 +1111,16 @@ fn shrink(runner: &Runner, case: &Case, fired: &Fired, budget: &mut u32) -> (Cas
                         break;
                     }
                     oi = oi.min(cur.steps[si].ops.len());
+                }
+            }
+            if si < cur.steps.len() && cur.steps[si].defer {
+                let mut c = cur.clone();
+                c.steps[si].defer = false;
+                if let Some(f) = try_case(&c, budget) {
+                    c.steps.truncate(f.step + 1);
+                    cur = c;
+                    cur_fired = f;
+                    progress = true;
                 }
             }
             if si < cur.steps.len() && cur.steps[si].gc {
@@ -1274,8 +1318,11 @@ fn cause_of(runner: &Runner, case: &Case, fired: &Fired) -> String {
         }
         // The comparison is made after every step, so the step on which the rule fires is
         // the cause; earlier steps only set the scene (they are in the witness).
-        if si + 1 == n && !step_parts.is_empty() {
-            parts.push(step_parts.join("+"));
+        // (A deferred step's batch is handled together with the following one.)
+        let in_tail = (si..n.saturating_sub(1)).all(|j| case.steps[j].defer);
+        if in_tail && !step_parts.is_empty() {
+            let joined = step_parts.join("+");
+            parts.push(if si + 1 < n { format!("deferred({joined})") } else { joined });
         }
     }
     if parts.is_empty() {
@@ -1387,6 +1434,7 @@ pub fn main(input_path: &str) {
             "recompiles_ok": total.recompiles_ok,
             "recompiles_err": total.recompiles_err,
             "gc_runs": total.gc_runs,
+            "deferred_batches": total.deferred_batches,
             "fresh_outcomes": total.fresh,
             "fresh_outcome_changes": total.outcome_changes,
             "comparisons": total.comparisons,
@@ -1416,6 +1464,7 @@ fn merge(t: &mut RunStats, s: RunStats) {
     t.recompiles_ok += s.recompiles_ok;
     t.recompiles_err += s.recompiles_err;
     t.gc_runs += s.gc_runs;
+    t.deferred_batches += s.deferred_batches;
     for (k, v) in s.fresh {
         *t.fresh.entry(k).or_default() += v;
     }
